@@ -1,5 +1,6 @@
 import GtirbProofs.Lemmas.CodecTypingProofs
 import GtirbProofs.Props.C07
+import GtirbProofs.Props.C08Wire
 import GtirbProofs.Props.C15
 import GtirbModel.AuxTable
 /-! C07, second part (review `reviews/codec.md`, C07 part 4 (a), (b)).
@@ -15,7 +16,16 @@ with a codec and take the number of arguments the codec takes (`supported`, a co
 parse tree alone), `C07_roundtrip_name` / `C07_roundtrip_supported` : the round trip through
 the table-level `encodeTop` / `decodeTop` (`GtirbModel/AuxTable.lean`) of a type name.
 
-(b) RESOLUTION AT ANY DEPTH: see the second half of the file. -/
+(b) RESOLUTION AT ANY DEPTH (second half of the file).  `resolve lookup nodeUuid : Val → Val`
+is what a user gets back for what they stored: every UUID position holds the node its 16 bytes
+name, if any, else the plain UUID; sets / mappings are rebuilt by the decoder's own insertion
+(so two spellings of one UUID collapse).  `C07_resolution` : every value the encoder accepts
+(`hasType'`, shown to be EXACTLY the encoder's domain by `hasType'_iff_encode`) decodes - with
+any suffix - to its resolution; `C07_resolution_encode` the same without typing hypothesis;
+`resolve_of_hasType` : the values of `hasType` are fixed points (so `C07_roundtrip` is the
+special case); `C07_resolution_hasType`, `resolve_idem` (under `Coherent`): what comes back is
+canonical and stable; `resolve_elem_eq_iff`, `resolve_set_of_distinct`,
+`resolve_map_of_distinct` : what collapses in sets / mappings and when nothing does. -/
 namespace Gtirb.Codec
 open Gtirb.TypeName
 
@@ -503,17 +513,29 @@ theorem C07_roundtrip_supported (lookup : Bytes → Option Nat) (nodeUuid : Nat 
 
 /-! non-vacuity -/
 
-def exTy : Ty := .map (.leaf .string) (.seq (.tuple [.leaf .uuid, .leaf .i16]))
+def exNamedTy : Ty := .map (.leaf .string) (.seq (.tuple [.leaf .uuid, .leaf .i16]))
 
-example : nameOf exTy = "mapping<string,sequence<tuple<UUID,int16_t>>>".toList := by
-  simp [exTy, nameOf, treeOf, treesOf, render, renderList, leafName]
+example : nameOf exNamedTy = "mapping<string,sequence<tuple<UUID,int16_t>>>".toList := by
+  simp [exNamedTy, nameOf, treeOf, treesOf, render, renderList, leafName]
 example : nameOf (.tuple []) = "tuple".toList := by
   simp [nameOf, treeOf, treesOf, render]
-example : noUnknown exTy = true := by decide
-example : tyOfName "mapping<string,sequence<tuple<UUID,int16_t>>>" = some exTy := by
-  have h : "mapping<string,sequence<tuple<UUID,int16_t>>>" = String.ofList (nameOf exTy) := by
-    simp [exTy, nameOf, treeOf, treesOf, render, renderList, leafName]
-  rw [h]; exact tyOfName_nameOf exTy (by decide)
+example : noUnknown exNamedTy = true := by decide
+theorem exNamedTy_name :
+    tyOfName "mapping<string,sequence<tuple<UUID,int16_t>>>" = some exNamedTy := by
+  have h : "mapping<string,sequence<tuple<UUID,int16_t>>>" = String.ofList (nameOf exNamedTy) := by
+    simp [exNamedTy, nameOf, treeOf, treesOf, render, renderList, leafName]
+  rw [h]; exact tyOfName_nameOf exNamedTy (by decide)
+
+open Gtirb.AuxTable in
+/-- `C07_roundtrip_name` on `{"hé": [(node 1, -2)]}` under that name -/
+example : ∃ bs, encodeTop exNodeUuid "mapping<string,sequence<tuple<UUID,int16_t>>>"
+      (.val (.map [.str "hé"] [.seq [.tuple [.node 1, .int (-2)]]])) = .ok bs ∧
+    ∀ rest, decodeTop exLookup "mapping<string,sequence<tuple<UUID,int16_t>>>" (bs ++ rest) =
+      .ok (.val (.map [.str "hé"] [.seq [.tuple [.node 1, .int (-2)]]])) :=
+  C07_roundtrip_name exLookup exNodeUuid _ exNamedTy _ exNamedTy_name (by
+    simp only [exNamedTy, hasType, hasTypeTuple, leafHasType, allMany, utf8_length_eq,
+      Bool.and_eq_true, decide_eq_true_eq]
+    decide)
 /-- a known head with a wrong arity, an unknown head: parse, but are not supported -/
 example : supported (.node "sequence".toList [.node "bool".toList [], .node "bool".toList []]) = false := by
   simp [supported, supportedList, headArity, leafNames]
@@ -521,5 +543,574 @@ example : supported (.node "foo".toList []) = false := by
   simp [supported, supportedList, headArity, leafNames]
 example : supported (.node "mapping".toList [.node "string".toList [], .node "tuple".toList []]) = true := by
   simp [supported, supportedList, headArity, leafNames]
+
+/-! ### (b) resolution at any depth -/
+
+/-- what the decoder makes of 16 bytes at a UUID position: the node they name if they name
+one, else the plain UUID -/
+def resolveBytes (lookup : Bytes → Option Nat) (u : Bytes) : Val :=
+  match lookup u with
+  | some id => .node id
+  | none => .uuid u
+
+mutual
+def resolve (lookup : Bytes → Option Nat) (nu : Nat → Bytes) : Val → Val
+  | .uuid u => resolveBytes lookup u
+  | .node id => resolveBytes lookup (nu id)
+  | .offset e d => .offset (resolve lookup nu e) d
+  | .seq xs => .seq (resolveList lookup nu xs)
+  | .set xs => .set (dedup (resolveList lookup nu xs))
+  | .map ks vs =>
+    .map (mapBuild (resolveList lookup nu ks) (resolveList lookup nu vs)).1
+      (mapBuild (resolveList lookup nu ks) (resolveList lookup nu vs)).2
+  | .tuple xs => .tuple (resolveList lookup nu xs)
+  | .variant i v => .variant i (resolve lookup nu v)
+  | .int n => .int n
+  | .bool b => .bool b
+  | .f32 b => .f32 b
+  | .f64 b => .f64 b
+  | .str s => .str s
+def resolveList (lookup : Bytes → Option Nat) (nu : Nat → Bytes) : List Val → List Val
+  | [] => []
+  | x :: xs => resolve lookup nu x :: resolveList lookup nu xs
+end
+
+theorem resolveList_eq_map (lookup : Bytes → Option Nat) (nu : Nat → Bytes) (xs : List Val) :
+    resolveList lookup nu xs = xs.map (resolve lookup nu) := by
+  induction xs with
+  | nil => rfl
+  | cons x xs ih => simp [resolveList, ih]
+
+def elemOk' (nu : Nat → Bytes) : Val → Bool
+  | .uuid u => u.length == 16
+  | .node id => (nu id).length == 16
+  | _ => false
+
+def leafHasType' (nu : Nat → Bytes) : Leaf → Val → Bool
+  | .bool, .bool _ => true
+  | .f32, .f32 bits => decide (bits < 2 ^ 32)
+  | .f64, .f64 bits => decide (bits < 2 ^ 64)
+  | .string, .str s => decide (s.toUTF8.toList.length < 2 ^ 64)
+  | .uuid, v => elemOk' nu v
+  | .offset, .offset e d => elemOk' nu e && decide (d < 2 ^ 64)
+  | l, .int n => l.isInt && intInRange l.signed l.width n
+  | _, _ => false
+
+mutual
+def hasType' (nu : Nat → Bytes) : Ty → Val → Bool
+  | .leaf l, v => leafHasType' nu l v
+  | .seq t, .seq xs => allMany (hasType' nu t) xs && decide (xs.length < 2 ^ 64)
+  | .set t, .set xs => allMany (hasType' nu t) xs && decide (xs.length < 2 ^ 64)
+  | .map kt vt, .map ks vs =>
+    allMany (hasType' nu kt) ks && allMany (hasType' nu vt) vs &&
+      ks.length == vs.length && decide (ks.length < 2 ^ 64)
+  | .tuple ts, .tuple xs => hasTypeTuple' nu ts xs
+  | .variant ts, .variant i v => decide (i < 2 ^ 64) && hasTypeNth' nu ts i v
+  | _, _ => false
+def hasTypeTuple' (nu : Nat → Bytes) : List Ty → List Val → Bool
+  | [], [] => true
+  | t :: ts, x :: xs => hasType' nu t x && hasTypeTuple' nu ts xs
+  | _, _ => false
+def hasTypeNth' (nu : Nat → Bytes) : List Ty → Nat → Val → Bool
+  | [], _, _ => false
+  | t :: _, 0, v => hasType' nu t v
+  | _ :: ts, i + 1, v => hasTypeNth' nu ts i v
+end
+
+/-- `f`/`g` take `x` to `r x` (with an arbitrary suffix left untouched) -/
+def RT' (r : Val → Val) (f : Val → Option Bytes) (g : Bytes → Res (Val × Bytes)) (x : Val) : Prop :=
+  ∃ bs, f x = some bs ∧ ∀ rest, g (bs ++ rest) = .ok (r x, rest)
+
+theorem many_resolution (r : Val → Val) (f : Val → Option Bytes) (g : Bytes → Res (Val × Bytes))
+    (p : Val → Bool) (hfg : ∀ x, p x = true → RT' r f g x) (xs : List Val)
+    (h : allMany p xs = true) :
+    ∃ bs, encodeMany f xs = some bs ∧
+      ∀ rest, decodeMany g xs.length (bs ++ rest) = .ok (xs.map r, rest) := by
+  induction xs with
+  | nil => exact ⟨[], rfl, fun rest => rfl⟩
+  | cons x xs ih =>
+    simp only [allMany, Bool.and_eq_true] at h
+    obtain ⟨a, ha, hda⟩ := hfg x h.1
+    obtain ⟨b, hb, hdb⟩ := ih h.2
+    refine ⟨a ++ b, by simp [encodeMany, ha, hb], fun rest => ?_⟩
+    simp [decodeMany, List.append_assoc, hda, hdb]
+
+theorem manyPairs_resolution (r r' : Val → Val) (f f' : Val → Option Bytes)
+    (g g' : Bytes → Res (Val × Bytes)) (p p' : Val → Bool)
+    (hfg : ∀ x, p x = true → RT' r f g x) (hfg' : ∀ x, p' x = true → RT' r' f' g' x)
+    (ks vs : List Val) (hl : ks.length = vs.length)
+    (hk : allMany p ks = true) (hv : allMany p' vs = true) :
+    ∃ bs, encodeManyPairs f f' ks vs = some bs ∧
+      ∀ rest, decodeManyPairs g g' ks.length (bs ++ rest) = .ok (ks.map r, vs.map r', rest) := by
+  induction ks generalizing vs with
+  | nil =>
+    cases vs with
+    | nil => exact ⟨[], rfl, fun rest => rfl⟩
+    | cons _ _ => simp at hl
+  | cons k ks ih =>
+    cases vs with
+    | nil => simp at hl
+    | cons v vs =>
+      simp only [allMany, Bool.and_eq_true] at hk hv
+      simp only [List.length_cons, Nat.add_right_cancel_iff] at hl
+      obtain ⟨a, ha, hda⟩ := hfg k hk.1
+      obtain ⟨b, hb, hdb⟩ := hfg' v hv.1
+      obtain ⟨c, hc, hdc⟩ := ih vs hl hk.2 hv.2
+      refine ⟨a ++ b ++ c, by simp [encodeManyPairs, ha, hb, hc], fun rest => ?_⟩
+      simp [decodeManyPairs, List.append_assoc, hda, hdb, hdc]
+
+theorem decodeElem_append (lookup : Bytes → Option Nat) (u rest : Bytes) (hu : u.length = 16) :
+    decodeElem lookup (u ++ rest) = .ok (resolveBytes lookup u, rest) := by
+  simp only [decodeElem, splitAt?_append 16 u rest hu, resolveBytes]
+  cases lookup u <;> rfl
+
+theorem elem_resolution (lookup : Bytes → Option Nat) (nu : Nat → Bytes) (e : Val)
+    (h : elemOk' nu e = true) :
+    ∃ u, encodeElem nu e = some u ∧ u.length = 16 ∧
+      ∀ rest, decodeElem lookup (u ++ rest) = .ok (resolve lookup nu e, rest) := by
+  cases e <;> simp [elemOk'] at h
+  case uuid u =>
+    exact ⟨u, by simp [encodeElem, h], h, fun rest => by
+      rw [decodeElem_append lookup u rest h, resolve]⟩
+  case node id =>
+    exact ⟨nu id, by simp [encodeElem, h], h, fun rest => by
+      rw [decodeElem_append lookup _ rest h, resolve]⟩
+
+theorem leaf_resolution (lookup : Bytes → Option Nat) (nu : Nat → Bytes) (l : Leaf) (v : Val)
+    (h : leafHasType' nu l v = true) :
+    RT' (resolve lookup nu) (encodeLeaf nu l) (decodeLeaf lookup l) v := by
+  cases v with
+  | int n =>
+    have h' : l.isInt = true ∧ intInRange l.signed l.width n = true := by
+      cases l <;> simp [leafHasType', elemOk', Leaf.isInt] at h ⊢ <;> exact h
+    simpa [RT', RT, resolve] using leafInt_roundtrip lookup nu l n h'.1 h'.2
+  | bool b =>
+    cases l <;> simp [leafHasType', elemOk'] at h
+    refine ⟨[if b then 1 else 0], by simp [encodeLeaf], fun rest => ?_⟩
+    cases b <;> simp [decodeLeaf, resolve]
+  | f32 bits =>
+    cases l <;> simp [leafHasType', elemOk'] at h
+    refine ⟨leBytes 4 bits, by simp [encodeLeaf, h], fun rest => ?_⟩
+    simp [decodeLeaf, resolve, splitAt?_append 4 _ rest (leBytes_length 4 bits),
+      leNat_leBytes_of_lt 4 bits (by simpa using h)]
+  | f64 bits =>
+    cases l <;> simp [leafHasType', elemOk'] at h
+    refine ⟨leBytes 8 bits, by simp [encodeLeaf, h], fun rest => ?_⟩
+    simp [decodeLeaf, resolve, splitAt?_append 8 _ rest (leBytes_length 8 bits),
+      leNat_leBytes_of_lt 8 bits (by simpa using h)]
+  | str s =>
+    cases l
+    case string =>
+      have hs : s.toUTF8.toList.length < 2 ^ 64 := by
+        simpa only [leafHasType', decide_eq_true_eq] using h
+      refine ⟨u64 s.toUTF8.toList.length ++ s.toUTF8.toList, ?_, fun rest => ?_⟩
+      · simp only [encodeLeaf, hs, if_true]
+      · simp only [decodeLeaf, List.append_assoc, splitAt?_u64, leNat_u64 _ hs,
+          splitAt?_append _ s.toUTF8.toList rest rfl, string_utf8_roundtrip, resolve]
+    all_goals simp [leafHasType', elemOk'] at h
+  | uuid u =>
+    cases l <;> simp [leafHasType'] at h
+    obtain ⟨a, ha, _, hd⟩ := elem_resolution lookup nu (.uuid u) (by simpa [leafHasType'] using h)
+    exact ⟨a, by simpa [encodeLeaf] using ha, fun rest => by simpa [decodeLeaf] using hd rest⟩
+  | node id =>
+    cases l <;> simp [leafHasType'] at h
+    obtain ⟨a, ha, _, hd⟩ := elem_resolution lookup nu (.node id) (by simpa [leafHasType'] using h)
+    exact ⟨a, by simpa [encodeLeaf] using ha, fun rest => by simpa [decodeLeaf] using hd rest⟩
+  | offset e d =>
+    cases l <;> simp [leafHasType', elemOk'] at h
+    obtain ⟨a, ha, hal, hd⟩ := elem_resolution lookup nu e h.1
+    refine ⟨a ++ u64 d, by simp [encodeLeaf, ha, h.2], fun rest => ?_⟩
+    simp [decodeLeaf, resolve, List.append_assoc, hd, splitAt?_u64, leNat_u64 _ h.2]
+  | seq xs => cases l <;> simp [leafHasType', elemOk'] at h
+  | set xs => cases l <;> simp [leafHasType', elemOk'] at h
+  | map ks vs => cases l <;> simp [leafHasType', elemOk'] at h
+  | tuple xs => cases l <;> simp [leafHasType', elemOk'] at h
+  | variant i v => cases l <;> simp [leafHasType', elemOk'] at h
+
+section
+variable (lookup : Bytes → Option Nat) (nu : Nat → Bytes)
+
+mutual
+theorem resolution : ∀ (t : Ty) (v : Val), hasType' nu t v = true →
+    RT' (resolve lookup nu) (encode nu t) (decode lookup t) v
+  | .leaf l, v, h => by
+    have h' : leafHasType' nu l v = true := by simpa [hasType'] using h
+    obtain ⟨bs, hb, hd⟩ := leaf_resolution lookup nu l v h'
+    exact ⟨bs, by simpa [encode] using hb, fun rest => by simpa [decode] using hd rest⟩
+  | .seq t, v, h => by
+    cases v <;> simp [hasType'] at h
+    case seq xs =>
+      obtain ⟨bs, hb, hd⟩ := many_resolution (resolve lookup nu) (encode nu t) (decode lookup t)
+        (hasType' nu t) (fun x hx => resolution t x hx) xs h.1
+      refine ⟨u64 xs.length ++ bs, by simp [encode, hb, h.2], fun rest => ?_⟩
+      simp [decode, resolve, resolveList_eq_map, List.append_assoc, splitAt?_u64,
+        leNat_u64 _ h.2, hd]
+  | .set t, v, h => by
+    cases v <;> simp [hasType'] at h
+    case set xs =>
+      obtain ⟨bs, hb, hd⟩ := many_resolution (resolve lookup nu) (encode nu t) (decode lookup t)
+        (hasType' nu t) (fun x hx => resolution t x hx) xs h.1
+      refine ⟨u64 xs.length ++ bs, by simp [encode, hb, h.2], fun rest => ?_⟩
+      simp [decode, resolve, resolveList_eq_map, List.append_assoc, splitAt?_u64,
+        leNat_u64 _ h.2, hd]
+  | .map kt vt, v, h => by
+    cases v <;> simp [hasType'] at h
+    case map ks vs =>
+      obtain ⟨⟨⟨hk, hv⟩, hl⟩, hn⟩ := h
+      obtain ⟨bs, hb, hd'⟩ := manyPairs_resolution (resolve lookup nu) (resolve lookup nu)
+        (encode nu kt) (encode nu vt) (decode lookup kt) (decode lookup vt)
+        (hasType' nu kt) (hasType' nu vt)
+        (fun x hx => resolution kt x hx) (fun x hx => resolution vt x hx) ks vs hl hk hv
+      refine ⟨u64 ks.length ++ bs, by simp [encode, hb, hn], fun rest => ?_⟩
+      simp [decode, resolve, resolveList_eq_map, List.append_assoc, splitAt?_u64,
+        leNat_u64 _ hn, hd']
+  | .tuple ts, v, h => by
+    cases v <;> simp [hasType'] at h
+    case tuple xs =>
+      obtain ⟨bs, hb, hd⟩ := resolutionTuple ts xs h
+      exact ⟨bs, by simpa [encode] using hb, fun rest => by simp [decode, resolve, hd]⟩
+  | .variant ts, v, h => by
+    cases v <;> simp [hasType'] at h
+    case variant i x =>
+      obtain ⟨bs, hb, hd⟩ := resolutionNth ts i x h.2
+      refine ⟨u64 i ++ bs, by simp [encode, hb, h.1], fun rest => ?_⟩
+      simp [decode, resolve, List.append_assoc, splitAt?_u64, leNat_u64 _ h.1, hd]
+  | .unknown _ _, v, h => by
+    cases v <;> simp [hasType'] at h
+  | .badArity _ _, v, h => by
+    cases v <;> simp [hasType'] at h
+theorem resolutionTuple : ∀ (ts : List Ty) (xs : List Val), hasTypeTuple' nu ts xs = true →
+    ∃ bs, encodeTuple nu ts xs = some bs ∧
+      ∀ rest, decodeTuple lookup ts (bs ++ rest) = .ok (resolveList lookup nu xs, rest)
+  | [], xs, h => by
+    cases xs <;> simp [hasTypeTuple'] at h
+    exact ⟨[], by simp [encodeTuple], fun rest => by simp [decodeTuple, resolveList]⟩
+  | t :: ts, xs, h => by
+    cases xs <;> simp [hasTypeTuple'] at h
+    case cons x xs =>
+      obtain ⟨a, ha, hda⟩ := resolution t x h.1
+      obtain ⟨b, hb, hdb⟩ := resolutionTuple ts xs h.2
+      refine ⟨a ++ b, by simp [encodeTuple, ha, hb], fun rest => ?_⟩
+      simp [decodeTuple, resolveList, List.append_assoc, hda, hdb]
+theorem resolutionNth : ∀ (ts : List Ty) (i : Nat) (v : Val), hasTypeNth' nu ts i v = true →
+    ∃ bs, encodeNth nu ts i v = some bs ∧
+      ∀ rest, decodeNth lookup ts i (bs ++ rest) = .ok (resolve lookup nu v, rest)
+  | [], i, v, h => by simp [hasTypeNth'] at h
+  | t :: ts, 0, v, h => by
+    obtain ⟨a, ha, hda⟩ := resolution t v (by simpa [hasTypeNth'] using h)
+    exact ⟨a, by simpa [encodeNth] using ha, fun rest => by simpa [decodeNth] using hda rest⟩
+  | t :: ts, i + 1, v, h => by
+    obtain ⟨a, ha, hda⟩ := resolutionNth ts i v (by simpa [hasTypeNth'] using h)
+    exact ⟨a, by simpa [encodeNth] using ha, fun rest => by simpa [decodeNth] using hda rest⟩
+end
+end
+
+/-- (b) RESOLUTION AT ANY DEPTH.  Every value the encoder accepts (`hasType'`: as `hasType`,
+but a UUID-typed element is ANY 16-byte UUID or any node with a 16-byte uuid, whether or not
+the lookup table knows it, and sets / mapping keys need not be distinct) is written, and what
+is read back - whatever follows - is its resolution: every UUID position, at any depth
+(inside offsets, sequences, tuples, variants, sets, mapping keys and values), holds the node
+the 16 bytes name if they name one and the plain UUID otherwise; sets and mappings are rebuilt
+from the resolved elements by the decoder's own `set.add` / `dict[k] = v` (`dedup`,
+`mapBuild`), so elements that resolve to the same thing collapse.
+No hypothesis relates `lookup` and `nodeUuid` (`Coherent` is not needed for this direction). -/
+theorem C07_resolution (lookup : Bytes → Option Nat) (nodeUuid : Nat → Bytes) (t : Ty) (v : Val)
+    (h : hasType' nodeUuid t v = true) :
+    ∃ bs, encode nodeUuid t v = some bs ∧
+      ∀ rest, decode lookup t (bs ++ rest) = .ok (resolve lookup nodeUuid v, rest) :=
+  resolution lookup nodeUuid t v h
+
+/-! `hasType'` is exactly the domain of the encoder -/
+
+section
+variable (nu : Nat → Bytes)
+
+theorem encodeElem_elemOk' (e : Val) (u : Bytes) (h : encodeElem nu e = some u) :
+    elemOk' nu e = true := by
+  cases e <;> simp only [encodeElem] at h <;> first | cases h | skip
+  all_goals
+    split at h
+    · simp [elemOk']; assumption
+    · cases h
+
+theorem encodeLeaf_hasType' (l : Leaf) (v : Val) (bs : Bytes) (h : encodeLeaf nu l v = some bs) :
+    leafHasType' nu l v = true := by
+  cases v with
+  | int n =>
+    have h' : l.isInt = true ∧ encodeInt l.signed l.width n = some bs := by
+      cases l <;> simp [encodeLeaf, Leaf.isInt, encodeElem] at h ⊢ <;> exact h
+    have hr : intInRange l.signed l.width n = true := by
+      have := h'.2
+      unfold encodeInt at this
+      split at this
+      · assumption
+      · cases this
+    cases l <;> simp [Leaf.isInt] at h' <;> simpa [leafHasType', Leaf.isInt] using hr
+  | bool b => cases l <;> simp [encodeLeaf, encodeElem] at h; rfl
+  | f32 bits =>
+    cases l <;> simp [encodeLeaf, encodeElem] at h
+    simpa [leafHasType'] using h.1
+  | f64 bits =>
+    cases l <;> simp [encodeLeaf, encodeElem] at h
+    simpa [leafHasType'] using h.1
+  | str s =>
+    cases l <;> simp [encodeLeaf, encodeElem] at h
+    simpa [leafHasType'] using h.1
+  | uuid u =>
+    cases l <;> simp only [encodeLeaf] at h <;> first | cases h | skip
+    simpa [leafHasType'] using encodeElem_elemOk' nu _ _ h
+  | node id =>
+    cases l <;> simp only [encodeLeaf] at h <;> first | cases h | skip
+    simpa [leafHasType'] using encodeElem_elemOk' nu _ _ h
+  | offset e d =>
+    cases l <;> simp only [encodeLeaf, encodeElem] at h <;> first | cases h | skip
+    split at h
+    · rename_i u hu
+      split at h
+      · rename_i hd
+        simp [leafHasType', encodeElem_elemOk' nu _ _ hu, hd]
+      · cases h
+    · cases h
+  | seq xs => cases l <;> simp [encodeLeaf, encodeElem] at h
+  | set xs => cases l <;> simp [encodeLeaf, encodeElem] at h
+  | map ks vs => cases l <;> simp [encodeLeaf, encodeElem] at h
+  | tuple xs => cases l <;> simp [encodeLeaf, encodeElem] at h
+  | variant i v => cases l <;> simp [encodeLeaf, encodeElem] at h
+
+theorem encodeMany_allMany (f : Val → Option Bytes) (p : Val → Bool)
+    (ih : ∀ x a, f x = some a → p x = true) :
+    ∀ (xs : List Val) (body : Bytes), encodeMany f xs = some body → allMany p xs = true
+  | [], _, _ => rfl
+  | x :: xs, body, h => by
+    obtain ⟨a, b, ha, hb, _⟩ := (C08_many_cons f x xs body).1 h
+    simp [allMany, ih x a ha, encodeMany_allMany f p ih xs b hb]
+
+theorem encodeManyPairs_allMany (f g : Val → Option Bytes) (p q : Val → Bool)
+    (ihf : ∀ x a, f x = some a → p x = true) (ihg : ∀ x a, g x = some a → q x = true) :
+    ∀ (ks vs : List Val) (body : Bytes), encodeManyPairs f g ks vs = some body →
+      allMany p ks = true ∧ allMany q vs = true
+  | [], [], _, _ => ⟨rfl, rfl⟩
+  | [], _ :: _, body, h => by simp [encodeManyPairs] at h
+  | _ :: _, [], body, h => by simp [encodeManyPairs] at h
+  | k :: ks, v :: vs, body, h => by
+    obtain ⟨a, b, c, ha, hb, hc, _⟩ := (C08_manyPairs_cons f g k v ks vs body).1 h
+    obtain ⟨h1, h2⟩ := encodeManyPairs_allMany f g p q ihf ihg ks vs c hc
+    simp [allMany, ihf k a ha, ihg v b hb, h1, h2]
+
+mutual
+theorem encode_hasType' : ∀ (t : Ty) (v : Val) (bs : Bytes), encode nu t v = some bs →
+    hasType' nu t v = true
+  | .leaf l, v, bs, h => by
+    rw [hasType']; exact encodeLeaf_hasType' nu l v bs (by simpa only [encode] using h)
+  | .seq t, v, bs, h => by
+    cases v with
+    | seq xs =>
+      obtain ⟨body, hb, hl, _⟩ := (encode_seq_iff nu t xs bs).1 h
+      simp [hasType', hl, encodeMany_allMany _ (hasType' nu t)
+        (fun x a hx => encode_hasType' t x a hx) xs body hb]
+    | _ => simp [encode] at h
+  | .set t, v, bs, h => by
+    cases v with
+    | set xs =>
+      obtain ⟨body, hb, hl, _⟩ := (encode_set_iff nu t xs bs).1 h
+      simp [hasType', hl, encodeMany_allMany _ (hasType' nu t)
+        (fun x a hx => encode_hasType' t x a hx) xs body hb]
+    | _ => simp [encode] at h
+  | .map kt vt, v, bs, h => by
+    cases v with
+    | map ks vs =>
+      obtain ⟨body, hb, hl, _⟩ := (encode_map_iff nu kt vt ks vs bs).1 h
+      obtain ⟨h1, h2⟩ := encodeManyPairs_allMany _ _ (hasType' nu kt) (hasType' nu vt)
+        (fun x a hx => encode_hasType' kt x a hx) (fun x a hx => encode_hasType' vt x a hx)
+        ks vs body hb
+      have hlen := C08_manyPairs_length _ _ ks vs body hb
+      simp [hasType', h1, h2, hlen]
+      omega
+    | _ => simp [encode] at h
+  | .tuple ts, v, bs, h => by
+    cases v with
+    | tuple xs =>
+      rw [hasType']; exact encodeTuple_hasType' ts xs bs (by simpa only [encode] using h)
+    | _ => simp [encode] at h
+  | .variant ts, v, bs, h => by
+    cases v with
+    | variant i x =>
+      obtain ⟨body, hb, hl, _⟩ := (encode_variant_iff nu ts i x bs).1 h
+      simp [hasType', hl, encodeNth_hasType' ts i x body hb]
+    | _ => simp [encode] at h
+  | .unknown _ _, v, bs, h => by cases v <;> simp [encode] at h
+  | .badArity _ _, v, bs, h => by cases v <;> simp [encode] at h
+theorem encodeTuple_hasType' : ∀ (ts : List Ty) (xs : List Val) (bs : Bytes),
+    encodeTuple nu ts xs = some bs → hasTypeTuple' nu ts xs = true
+  | [], [], _, _ => rfl
+  | [], _ :: _, bs, h => by simp [encodeTuple] at h
+  | _ :: _, [], bs, h => by simp [encodeTuple] at h
+  | t :: ts, x :: xs, bs, h => by
+    simp only [encodeTuple] at h
+    split at h
+    · rename_i a b ha hb
+      simp [hasTypeTuple', encode_hasType' t x a ha, encodeTuple_hasType' ts xs b hb]
+    · cases h
+theorem encodeNth_hasType' : ∀ (ts : List Ty) (i : Nat) (v : Val) (bs : Bytes),
+    encodeNth nu ts i v = some bs → hasTypeNth' nu ts i v = true
+  | [], i, v, bs, h => by simp [encodeNth] at h
+  | t :: _, 0, v, bs, h => by
+    rw [hasTypeNth']; exact encode_hasType' t v bs (by simpa only [encodeNth] using h)
+  | _ :: ts, i + 1, v, bs, h => by
+    rw [hasTypeNth']; exact encodeNth_hasType' ts i v bs (by simpa only [encodeNth] using h)
+end
+end
+
+/-- the values of `hasType'` are exactly the values the encoder accepts -/
+theorem hasType'_iff_encode (nu : Nat → Bytes) (t : Ty) (v : Val) :
+    hasType' nu t v = true ↔ ∃ bs, encode nu t v = some bs :=
+  ⟨fun h => (resolution (fun _ => none) nu t v h).imp fun _ hb => hb.1,
+   fun ⟨bs, h⟩ => encode_hasType' nu t v bs h⟩
+
+/-- `C07_resolution` without any typing hypothesis: WHATEVER the encoder writes, the decoder
+reads back as the resolution of the value written -/
+theorem C07_resolution_encode (lookup : Bytes → Option Nat) (nodeUuid : Nat → Bytes) (t : Ty)
+    (v : Val) (bs : Bytes) (h : encode nodeUuid t v = some bs) (rest : Bytes) :
+    decode lookup t (bs ++ rest) = .ok (resolve lookup nodeUuid v, rest) := by
+  obtain ⟨bs', hb, hd⟩ := C07_resolution lookup nodeUuid t v (encode_hasType' nodeUuid t v bs h)
+  rw [h] at hb; cases hb
+  exact hd rest
+
+/-- the values of `hasType` are among them ... -/
+theorem hasType_hasType' (lookup : Bytes → Option Nat) (nu : Nat → Bytes) (t : Ty) (v : Val)
+    (h : hasType lookup nu t v = true) : hasType' nu t v = true := by
+  obtain ⟨bs, hb, _⟩ := C07_roundtrip lookup nu t v h
+  exact encode_hasType' nu t v bs hb
+
+/-- ... and are fixed points of the resolution: `C07_roundtrip` is the special case of
+`C07_resolution` on canonical values (nodes the table knows, plain UUIDs it does not know,
+distinct set elements / mapping keys) -/
+theorem resolve_of_hasType (lookup : Bytes → Option Nat) (nu : Nat → Bytes) (t : Ty) (v : Val)
+    (h : hasType lookup nu t v = true) : resolve lookup nu v = v := by
+  obtain ⟨bs, hb, hd⟩ := C07_roundtrip lookup nu t v h
+  have := (C07_resolution_encode lookup nu t v bs hb []).symm.trans (hd [])
+  simpa using this
+
+/-- under `Coherent` (a UUID the table resolves to a node is that node's UUID: true of every
+IR, `get_by_uuid` finds a node under `node.uuid`) what comes back is a canonical value of the
+type ... -/
+theorem C07_resolution_hasType (lookup : Bytes → Option Nat) (nu : Nat → Bytes)
+    (hc : Coherent lookup nu) (t : Ty) (v : Val) (h : hasType' nu t v = true) :
+    hasType lookup nu t (resolve lookup nu v) = true := by
+  obtain ⟨bs, _, hd⟩ := C07_resolution lookup nu t v h
+  exact decode_hasType lookup nu hc t (bs ++ []) [] _ (hd [])
+
+/-- ... so that saving and reading it once more changes nothing: resolution is idempotent -/
+theorem resolve_idem (lookup : Bytes → Option Nat) (nu : Nat → Bytes)
+    (hc : Coherent lookup nu) (t : Ty) (v : Val) (h : hasType' nu t v = true) :
+    resolve lookup nu (resolve lookup nu v) = resolve lookup nu v :=
+  resolve_of_hasType lookup nu t _ (C07_resolution_hasType lookup nu hc t v h)
+
+/-! #### sets and mappings: what collapses, and when nothing does -/
+
+/-- the 16 bytes a UUID-typed element stands for -/
+def elemBytes (nu : Nat → Bytes) : Val → Bytes
+  | .uuid u => u
+  | .node id => nu id
+  | _ => []
+
+theorem resolve_elem (lookup : Bytes → Option Nat) (nu : Nat → Bytes) (e : Val)
+    (h : elemOk' nu e = true) : resolve lookup nu e = resolveBytes lookup (elemBytes nu e) := by
+  cases e <;> simp [elemOk'] at h <;> simp [resolve, elemBytes]
+
+/-- under `Coherent`, different bytes never resolve to the same thing: two plain UUIDs cannot
+both resolve to one node (`lookup u = some id = lookup u'` gives `u = nu id = u'`) -/
+theorem resolveBytes_inj (lookup : Bytes → Option Nat) (nu : Nat → Bytes) (hc : Coherent lookup nu)
+    (u u' : Bytes) (h : resolveBytes lookup u = resolveBytes lookup u') : u = u' := by
+  unfold resolveBytes at h
+  cases h1 : lookup u with
+  | none =>
+    cases h2 : lookup u' with
+    | none => rw [h1, h2] at h; simpa using h
+    | some id' => rw [h1, h2] at h; cases h
+  | some id =>
+    cases h2 : lookup u' with
+    | none => rw [h1, h2] at h; cases h
+    | some id' =>
+      rw [h1, h2] at h
+      simp only [Val.node.injEq] at h
+      subst h
+      rw [← hc u id h1, ← hc u' id h2]
+
+/-- so two elements of a set / two keys collapse exactly when they are two spellings of ONE
+UUID: the same 16 bytes twice, or a plain UUID beside the node (or two node objects) bearing
+it.  A value all of whose UUID-typed set elements / keys stand for different bytes - e.g.
+one that holds only nodes, or only plain UUIDs - loses nothing. -/
+theorem resolve_elem_eq_iff (lookup : Bytes → Option Nat) (nu : Nat → Bytes)
+    (hc : Coherent lookup nu) (e e' : Val) (he : elemOk' nu e = true) (he' : elemOk' nu e' = true) :
+    resolve lookup nu e = resolve lookup nu e' ↔ elemBytes nu e = elemBytes nu e' := by
+  rw [resolve_elem lookup nu e he, resolve_elem lookup nu e' he']
+  exact ⟨resolveBytes_inj lookup nu hc _ _, fun h => by rw [h]⟩
+
+/-- what `hasType'` would have to demand for a set to come back element by element: its
+elements pairwise distinct AFTER resolution -/
+theorem resolve_set_of_distinct (lookup : Bytes → Option Nat) (nu : Nat → Bytes) (xs : List Val)
+    (h : pairwiseDistinct (xs.map (resolve lookup nu)) = true) :
+    resolve lookup nu (.set xs) = .set (xs.map (resolve lookup nu)) := by
+  rw [resolve, resolveList_eq_map, dedup_of_pairwiseDistinct _ h]
+
+/-- the same for the keys of a mapping -/
+theorem resolve_map_of_distinct (lookup : Bytes → Option Nat) (nu : Nat → Bytes)
+    (ks vs : List Val) (hl : ks.length = vs.length)
+    (h : pairwiseDistinct (ks.map (resolve lookup nu)) = true) :
+    resolve lookup nu (.map ks vs) =
+      .map (ks.map (resolve lookup nu)) (vs.map (resolve lookup nu)) := by
+  rw [resolve, resolveList_eq_map, resolveList_eq_map,
+    mapBuild_of_pairwiseDistinct _ _ (by simpa using hl) h]
+
+/-! #### non-vacuity (the IR of `Props/C07.lean`: nodes 1 and 2, uuids 16 x `01`, 16 x `02`) -/
+
+/-- `sequence<tuple<UUID,set<Offset>>>` holding PLAIN UUIDs that name nodes, two levels down:
+not a value of `hasType` (`C07_roundtrip` is silent), a value of `hasType'` -/
+def exDeep : Val :=
+  .seq [.tuple [.uuid (List.replicate 16 1),
+    .set [.offset (.uuid (List.replicate 16 2)) 5, .offset (.uuid (List.replicate 16 9)) 0]]]
+def exDeepTy : Ty := .seq (.tuple [.leaf .uuid, .set (.leaf .offset)])
+
+example : hasType exLookup exNodeUuid exDeepTy exDeep = false := by decide
+example : hasType' exNodeUuid exDeepTy exDeep = true := by decide
+/-- they come back as the nodes; the UUID naming no node stays a plain UUID -/
+example : resolve exLookup exNodeUuid exDeep =
+    .seq [.tuple [.node 1,
+      .set [.offset (.node 2) 5, .offset (.uuid (List.replicate 16 9)) 0]]] := by rfl
+example : ∃ bs, encode exNodeUuid exDeepTy exDeep = some bs ∧
+    ∀ rest, decode exLookup exDeepTy (bs ++ rest) =
+      .ok (.seq [.tuple [.node 1,
+        .set [.offset (.node 2) 5, .offset (.uuid (List.replicate 16 9)) 0]]], rest) :=
+  C07_resolution exLookup exNodeUuid exDeepTy exDeep (by decide)
+
+/-- the collapse: a Python set holding the UUID of node 1 AND node 1 itself (two different
+objects, `pairwiseDistinct`) is written with count 2 and comes back with one element -/
+example : pairwiseDistinct [.uuid (List.replicate 16 1), .node 1] = true := by decide
+example : resolve exLookup exNodeUuid (.set [.uuid (List.replicate 16 1), .node 1]) =
+    .set [.node 1] := by rfl
+example : encode exNodeUuid (.set (.leaf .uuid)) (.set [.uuid (List.replicate 16 1), .node 1]) =
+    some ([2, 0, 0, 0, 0, 0, 0, 0] ++ List.replicate 16 1 ++ List.replicate 16 1) := by decide
+example (rest : Bytes) : decode exLookup (.set (.leaf .uuid))
+    ([2, 0, 0, 0, 0, 0, 0, 0] ++ List.replicate 16 1 ++ List.replicate 16 1 ++ rest) =
+    .ok (.set [.node 1], rest) :=
+  C07_resolution_encode exLookup exNodeUuid (.set (.leaf .uuid))
+    (.set [.uuid (List.replicate 16 1), .node 1]) _ (by decide) rest
+/-- in a mapping the first spelling keeps its place and the last value wins -/
+example : resolve exLookup exNodeUuid
+    (.map [.uuid (List.replicate 16 1), .uuid (List.replicate 16 7), .node 1]
+      [.int 10, .int 20, .int 30]) =
+    .map [.node 1, .uuid (List.replicate 16 7)] [.int 30, .int 20] := by rfl
+/-- a node the table does not know (not in the IR) comes back as its plain UUID -/
+example : resolve exLookup exNodeUuid (.node 5) = .uuid (List.replicate 16 5) := by rfl
+/-- `Coherent` holds of the example IR -/
+example : Coherent exLookup exNodeUuid := by
+  intro u id h
+  unfold exLookup at h
+  split at h
+  · cases h; subst u; rfl
+  · split at h
+    · cases h; subst u; rfl
+    · cases h
 
 end Gtirb.Codec
